@@ -183,7 +183,17 @@ func genKnobProgram(r *Rand) (string, []string) {
 	var frags []string
 	n := r.Range(2, 5)
 	for i := 0; i < n; i++ {
-		switch k := r.Intn(13); k {
+		switch k := r.Intn(15); k {
+		case 13:
+			// native methods that call back into bytecode: the reallocation happens inside the
+			// callback, the native's result has to land in the reallocated stack
+			d := Pick(r, []int{2, 30, 100, 280})
+			fmt.Fprintf(&b, "ncb%d := [1, 2, 3].map(|a: Int|: Int -> a * 1000 + plain_depth(a * %d))\nprintln \"ncb=${sum_all(ncb%d)} ${ncb%d.length}\"\n", i, d, i, i)
+			frags = append(frags, fmt.Sprintf("nativemap%d", d))
+		case 14:
+			d := Pick(r, []int{2, 30, 100, 280})
+			fmt.Fprintf(&b, "nfo%d := [1, 2, 3].fold(7) |acc: Int, a: Int|: Int -> acc * 3 + plain_depth(a * %d)\nvar nti%d = 0\n3.times |t: Int| -> nti%d = nti%d + plain_depth(t * %d + 1)\nprintln \"nfold=${nfo%d} ${nti%d}\"\n", i, d, i, i, i, d, i, i)
+			frags = append(frags, fmt.Sprintf("nativefold%d", d))
 		case 10:
 			d := Pick(r, []int{2, 30, 150, 400})
 			fmt.Fprintf(&b, "println \"genacc=${drain_acc(%d, %d)}\"\n", r.Range(1, 6), d)
